@@ -262,6 +262,40 @@ PROPS = {
         ],
         "assumptions": ["symmetry and agreement with equality of normal forms are decided on the explored pairs (they need confluence as theorems)"],
     },
+    "C12": {
+        "level": "translation_validation",
+        "streams": ["C12"],
+        "case_ms": 5000,
+        "rule": "(pattern, instance) pairs: all closed well-typed normalising terms <= 4 (5) nodes and random closed terms of 3-28 nodes with "
+                "1-3 subterms replaced by holes at their binder depth (shift = depth, home = top level), unified with the original in both "
+                "argument orders, pattern against pattern, unrelated pairs, and hand-written occurs-check / scope-escape / one-cell-two-"
+                "demands configurations. After a `true` result: the exported store must be acyclic, every solution closed, and the two "
+                "sides zonked with the store must pass the proved conversion test; a hole-free term must unify with itself; the context "
+                "must be restored. Non-trivial: every case; distinct by case text.",
+        "trusted_base": TB_COMMON + [
+            "validator: Oracle/Infer.v convb (convb_sound); zonking and the cycle / scope checks on the exported store are OCaml glue (ocaml/c12.ml)",
+            "hook H1 (feature verif): attribution of failures to the recorded finding D9",
+        ],
+        "assumptions": ["holes are written at top level (home depth 0) in the generated pairs; deeper homes are exercised only through the checker streams (C03, C05)"],
+    },
+    "C18": {
+        "level": "proof",
+        "streams": ["C18"],
+        "case_ms": 5000,
+        "rule": "(a) generated closed programs of function types, half of them prefixed by a two-definition group, and type-perturbed "
+                "variants: 1-4 outer binder layers (annotated lambdas, whole groups) are peeled into the typing / definitions contexts "
+                "exactly as the checker pushes them (parameters with offset 0, group members with offsets n..1) and the open body is checked "
+                "under them: same verdict as the closed program, its type re-wrapped by the peeled binders (Pi / group_type) convertible "
+                "with the closed type (proved conversion test), both contexts compared entry by entry before/after, also after rejections; "
+                "(b) random contexts of 1-3 blocks (parameters whose types are closed or earlier variables; groups of 1-2 definitions that "
+                "mention group members and outer variables) with random well-scoped terms: normalize_weak_head and unify under the context "
+                "vs the proved-sound mirrors whnf / convb under the corresponding context. Non-trivial: something was peeled / the mirror "
+                "terminates; distinct by case text.",
+        "trusted_base": TB_COMMON + [
+            "mirrors: Oracle/Infer.v whnf / convb under Spec/Typing.v contexts (lookup_ty / lookup_def with offsets), sound for red G / conv G",
+        ],
+        "assumptions": ["type_check under a context is compared with the closed wrapper on the implementation itself; no Coq mirror of type_check_rec's context handling (Model B) is part of this development yet"],
+    },
 }
 
 NOT_APPLICABLE = {}
@@ -418,5 +452,25 @@ MANIFEST_TEXT = {
         "design_ref": "DESIGN.md section 4, C06",
         "note": "Partial proof: symmetry and normal-form agreement are stated, not proved (confluence).",
         "technique": "Coq proofs about definitional equality (step_in_conv, convb_refl, whnf_never_let) + differential and metamorphic testing of normalize_weak_head/unify",
+    },
+    "C12": {
+        "text": "Per-instance validation with a proved conversion test: after each successful unification the recorded solutions are "
+                "substituted and the two sides must be certified definitionally equal (convb_sound); solutions must be closed and the store "
+                "acyclic; unify(t,t) on hole-free t must succeed (mirror: convb_refl). Hole-punched pairs at every position and depth, "
+                "occurs-check and scope-escape configurations. D9 is a recorded finding.",
+        "design_ref": "DESIGN.md section 4, C12",
+        "note": "Store invariants of a Model B mirror are future work; the validation is on the implementation's own store.",
+        "technique": "translation validation of unify results with a Coq-verified conversion test + store scope/acyclicity checks on hole-punched pairs",
+    },
+    "C18": {
+        "text": "Proved: what the depth offsets of context entries mean (C18_lookup_param / _under_binder / _group: the `index + 1 - "
+                "offset` law gives a parameter's type lifted over its own binder and a group member's annotation and definition as "
+                "written), and that the normaliser / conversion mirrors are sound under an arbitrary context. The implementation is then "
+                "compared with those mirrors under random contexts mixing parameters and definitions, and type_check of an open body under "
+                "the peeled context is compared with the closed program (verdict, re-wrapped type, contexts entry by entry before/after, "
+                "including rejections part-way).",
+        "design_ref": "DESIGN.md section 4, C18",
+        "note": "Restoration of contexts is observed on the implementation (every explored outcome), not proved for a mirror of type_check_rec.",
+        "technique": "Coq proofs of the offset/lookup laws + differential testing of whnf/unify under contexts + peel-and-compare metamorphic testing of type_check",
     },
 }
